@@ -167,6 +167,12 @@ fn export<C: RangeCombo>(e: &Enc<C>) -> Vec<u128> {
     unwords(&e.clone().into_compressed().unwrap())
 }
 
+/// the executable hypothesis of the table round-trip theorem (`CV.strictCdfB`): strictly
+/// increasing from 0 to 2^P, at least two symbols
+fn strict_cdf(p: u32, cdf: &[u128]) -> bool {
+    cdf.len() >= 3 && cdf[0] == 0 && *cdf.last().unwrap() == pow2(p) && cdf.windows(2).all(|x| x[0] < x[1])
+}
+
 fn parse_triples(toks: &[&str]) -> Option<Vec<(u32, u32, Vec<u128>)>> {
     if toks.len() % 3 != 0 {
         return None;
@@ -185,6 +191,9 @@ fn dec_many<C: RangeCombo, Bk: ReadWords<C::W, Queue>>(
 ) -> String {
     let mut out = Vec::new();
     for (b, p, cdf) in ts {
+        if !strict_cdf(*p, cdf) {
+            return "bad-table".into();
+        }
         match C::dec(d, *b, *p, cdf) {
             None => return "unsupported".into(),
             Some(o) => match parse_hex(&o) {
@@ -203,6 +212,7 @@ fn run_hist<C: RangeCombo>(segs: &[Vec<&str>]) -> String {
     let mut dec: Option<Dec<C>> = None;
     let mut snaps: Vec<(usize, RangeCoderState<C::W, C::S>)> = Vec::new();
     let mut spec_ok = false;
+    let mut bad_table = false;
     macro_rules! pl {
         ($e:expr) => {
             match parse_list($e) {
@@ -231,6 +241,9 @@ fn run_hist<C: RangeCombo>(segs: &[Vec<&str>]) -> String {
         ("range", ["raw", ws, lo, r, n, first]) => {
             let l = pl!(ws);
             let (lo, r, n, first) = (ph!(lo), ph!(r), ph!(n), ph!(first));
+            if n > u64::MAX as u128 {
+                return "bad-op".into();
+            }
             match mk_state::<C>(lo, r) {
                 Some(st) => enc = Some(RangeEncoder::from_raw_parts(words::<C::W>(&l), st, mk_sit::<C>(n, first))),
                 None => return "err".into(),
@@ -308,6 +321,9 @@ fn run_hist<C: RangeCombo>(segs: &[Vec<&str>]) -> String {
                         dec = Some(e.into_decoder().unwrap());
                         "ok".into()
                     }
+                    ["expect", ws] => {
+                        if export::<C>(coder) == parse_list(ws)? { "ok".into() } else { "differs".into() }
+                    }
                     ["spec"] => {
                         if spec_ok {
                             show_list(export::<C>(coder))
@@ -329,8 +345,15 @@ fn run_hist<C: RangeCombo>(segs: &[Vec<&str>]) -> String {
                     }
                 };
                 Some(match seg.as_slice() {
-                    ["dec", b, p, cdf] => C::dec(d, parse_hex(b)? as u32, parse_hex(p)? as u32, &parse_list(cdf)?)
-                        .unwrap_or("unsupported".into()),
+                    ["dec", b, p, cdf] => {
+                        let (pp, t) = (parse_hex(p)? as u32, parse_list(cdf)?);
+                        if !strict_cdf(pp, &t) {
+                            bad_table = true;
+                            "bad-table".into()
+                        } else {
+                            C::dec(d, parse_hex(b)? as u32, pp, &t).unwrap_or("unsupported".into())
+                        }
+                    }
                     ["seek", pos, lo, r] => do_seek(d, parse_hex(pos)? as usize, parse_hex(lo)?, parse_hex(r)?),
                     ["seekto", i] => {
                         let (pos, st) = *snaps.get(parse_hex(i)? as usize)?;
@@ -350,7 +373,13 @@ fn run_hist<C: RangeCombo>(segs: &[Vec<&str>]) -> String {
             }
         });
         match r {
-            Ok(Some(s)) => outs.push(s),
+            Ok(Some(s)) => {
+                let stop = bad_table || s.ends_with("bad-table");
+                outs.push(s);
+                if stop {
+                    break;
+                }
+            }
             Ok(None) => {
                 outs.push("bad-op".into());
                 break;
@@ -538,6 +567,9 @@ fn run_combo<C: RangeCombo>(segs: &[Vec<&str>]) -> String {
         "rangedecsweep" => {
             if head.len() != 9 || segs.len() != 1 {
                 return "bad-op".into();
+            }
+            if !matches!((parse_hex(head[4]), parse_list(head[8])), (Some(pp), Some(t)) if strict_cdf(pp as u32, &t)) {
+                return if parse_hex(head[4]).is_some() && parse_list(head[8]).is_some() { "bad-table".into() } else { "bad-op".into() };
             }
             let f = || -> Option<String> {
                 Some(dec_sweep::<C>(
